@@ -44,6 +44,16 @@ def cases(tier, salts):
             base.append(("diag", cfgs.base_cfg(prob, salt, maxfun=40, user_params={"logging.save_diagnostic_info": True})))
             if salt == 0:
                 base.append(("regularised", cfgs.base_cfg(prob, salt, maxfun=12, reg={"r": "l1", "lam": 0.05})))
+        # a growing phase with the DEFAULT growing method: for m >= n the documentation promises the deterministic full-rank
+        # completion (random perturbations are the default only for m < n) - square and over-determined systems
+        for gp in ("rosen", "nzr", "rosen3", "nzr3"):
+            base.append(("grow_default/" + gp, cfgs.base_cfg(gp, salt, maxfun=40, user_params={"growing.ndirs_initial": 1})))
+        # ... and a square system with n = 4 (wave k: `m < n` written as `m <= n` switches square systems to the random method;
+        # with n = 2 the single perturbed step does not change the outcome)
+        A4 = [[2.0, -1.0, 0.5, 0.0], [0.3, 1.5, -0.7, 0.2], [-0.4, 0.6, 1.8, 0.9], [1.0, 0.1, -0.3, 2.2]]
+        for nd in (1, 2, 3):
+            base.append(("grow_default/square4", {"prob": {"f": "lin", "A": A4, "b": [0.5, -1.0, 0.25, 2.0], "salt": salt}, "x0": [1.0, -0.5, 0.3, 0.8],
+                                                  "memo": True, "maxfun": 40, "user_params": {"growing.ndirs_initial": nd}}))
         base.append(("n3", cfgs.base_cfg("rosen3", salt, maxfun=60)))
         base.append(("n3_regression_max", cfgs.base_cfg("rosen3", salt, maxfun=60, npt=10)))
         base.append(("n1_regression_max", cfgs.base_cfg("one", salt, maxfun=30, npt=3)))
